@@ -9,6 +9,7 @@
 -/
 import AferoVerif.Proofs.Path
 import AferoVerif.Model.BasePathFs
+import AferoVerif.Proofs.RealPathRel
 import AferoVerif.Generated.Facts
 namespace AferoVerif.C08
 open AferoVerif AferoVerif.Path
@@ -37,6 +38,16 @@ theorem join2_rooted (a b : Str) (h : isRooted a = true) : isRooted (join2 a b) 
   · simp only [hb, if_false]
     rw [clean_rooted _ (isRooted_append a _ h)]; exact isRooted_render _
 
+/-- for an absolute base path the containment test is the prefix test on a separator boundary -/
+theorem within_rooted (bpath path : Str) (hb : isRooted bpath = true) (h : withinBasePath bpath path = true) :
+    path = bpath ∨ hasPrefix path (trimSuffixSep bpath ++ [sep]) = true := by
+  have hd : bpath ≠ dot := by intro e; rw [e] at hb; exact absurd hb (by decide)
+  unfold withinBasePath at h
+  simp only [hd, if_false, Bool.decide_or, Bool.or_eq_true, decide_eq_true_eq, Bool.decide_and, Bool.and_eq_true] at h
+  rcases h with h | h
+  · exact Or.inl h
+  · exact Or.inr h.1
+
 /-- **C08, BasePathFs.** For every root that is absolute and *every* name string: if `RealPath`
     accepts the name, the path it hands to the underlying filesystem is a cleaned absolute
     path whose segments start with the segments of the cleaned root — so it denotes the root
@@ -62,9 +73,8 @@ theorem realPath_confined (base name p : Str) (hb : isRooted base = true)
     refine ⟨by rw [hseg, hp], by rw [hseg]; exact hq, ?_⟩
     rw [hseg]
     apply prefix_of_string_test _ _ hd hq
+    have htest := within_rooted _ _ (by rw [hbp]; exact isRooted_render _) htest
     rw [hp] at htest
-    rw [hbp] at htest
-    rw [← hbp] at htest
     rw [hbp] at htest
     rcases htest with h1 | h1
     · left; rw [hbp]; exact h1
@@ -137,9 +147,9 @@ example : realPath (s "/base/") (s "/..//../x") = none := by decide
 example : realPath (s "/") (s "../x") = some (s "/x") := by decide
 example : httpPath (s "/base") (s "../../secret") = s "/base/secret" := by decide
 
-/-- the hypothesis "root is absolute" matters: a relative root that cleans to `..` confines
-    nothing (which is why the theorem does not claim it) -/
-example : realPath (s "..") (s "x") = some (s "../x") := by decide
+/-- a relative root: names below it are accepted, names that climb out of it are not (see
+    `realPath_confined_every_root` below) -/
+example : realPath (s "..") (s "x") = some (s "../x") ∧ realPath (s "..") (s "../x") = none := by decide
 
 /-! ### every method of the wrapper: the names that reach the source are confined -/
 
@@ -153,8 +163,10 @@ def opNames : Op → List Str
 def Confined (D p : Str) : Prop :=
   p = render true (segsOf p) ∧ (∀ x ∈ segsOf p, Normal x) ∧ segsOf D <+: segsOf p
 
-theorem single_confined (D : Str) (hD : isRooted D = true) (mk : Str → Op) (hmk : ∀ q, opNames (mk q) = [q])
-    (p0 : Str) (op' : Op) (h : (realPath D p0).map mk = some op') : ∀ p ∈ opNames op', Confined D p := by
+/-- whatever holds of every path `RealPath` accepts holds of every name the wrapper hands on -/
+theorem single_from_realPath (D : Str) (P : Str → Prop) (hP : ∀ n q, realPath D n = some q → P q)
+    (mk : Str → Op) (hmk : ∀ q, opNames (mk q) = [q])
+    (p0 : Str) (op' : Op) (h : (realPath D p0).map mk = some op') : ∀ p ∈ opNames op', P p := by
   cases hr : realPath D p0 with
   | none => rw [hr] at h; cases h
   | some q =>
@@ -164,28 +176,22 @@ theorem single_confined (D : Str) (hD : isRooted D = true) (mk : Str → Op) (hm
     rw [hmk] at hp
     simp only [List.mem_cons, List.mem_nil_iff, or_false] at hp
     subst hp
-    exact realPath_confined D p0 _ hD hr
+    exact hP p0 _ hr
 
-/-- **C08, every Fs method.** Whatever call is made on a base-path filesystem rooted at an absolute
-    `D` — Create, Mkdir, MkdirAll, Open, OpenFile, Remove, RemoveAll, Stat, Chmod, Chown, Chtimes,
-    both arguments of Rename — every name that is handed to the underlying filesystem is a cleaned
-    absolute path whose segments extend the root's (`Confined`); and if any argument would leave
-    the root the underlying filesystem is not called at all, the answer is not-exist and nothing
-    changes (`bp_escape_inert`). -/
-theorem bp_every_name_confined (D : Str) (hD : isRooted D = true) (op op' : Op) (h : bpMapOp D op = some op')
-    (hn : opNames op ≠ []) : ∀ p ∈ opNames op', Confined D p := by
+theorem bp_names_from_realPath (D : Str) (P : Str → Prop) (hP : ∀ n q, realPath D n = some q → P q)
+    (op op' : Op) (h : bpMapOp D op = some op') (hn : opNames op ≠ []) : ∀ p ∈ opNames op', P p := by
   cases op with
-  | create p => exact single_confined D hD .create (fun _ => rfl) p op' h
-  | mkdir p perm => exact single_confined D hD (.mkdir · perm) (fun _ => rfl) p op' h
-  | mkdirAll p perm => exact single_confined D hD (.mkdirAll · perm) (fun _ => rfl) p op' h
-  | open_ p => exact single_confined D hD .open_ (fun _ => rfl) p op' h
-  | openFile p f perm => exact single_confined D hD (.openFile · f perm) (fun _ => rfl) p op' h
-  | remove p => exact single_confined D hD .remove (fun _ => rfl) p op' h
-  | removeAll p => exact single_confined D hD .removeAll (fun _ => rfl) p op' h
-  | stat p => exact single_confined D hD .stat (fun _ => rfl) p op' h
-  | chmod p m => exact single_confined D hD (.chmod · m) (fun _ => rfl) p op' h
-  | chown p u g => exact single_confined D hD (.chown · u g) (fun _ => rfl) p op' h
-  | chtimes p t => exact single_confined D hD (.chtimes · t) (fun _ => rfl) p op' h
+  | create p => exact single_from_realPath D P hP .create (fun _ => rfl) p op' h
+  | mkdir p perm => exact single_from_realPath D P hP (.mkdir · perm) (fun _ => rfl) p op' h
+  | mkdirAll p perm => exact single_from_realPath D P hP (.mkdirAll · perm) (fun _ => rfl) p op' h
+  | open_ p => exact single_from_realPath D P hP .open_ (fun _ => rfl) p op' h
+  | openFile p f perm => exact single_from_realPath D P hP (.openFile · f perm) (fun _ => rfl) p op' h
+  | remove p => exact single_from_realPath D P hP .remove (fun _ => rfl) p op' h
+  | removeAll p => exact single_from_realPath D P hP .removeAll (fun _ => rfl) p op' h
+  | stat p => exact single_from_realPath D P hP .stat (fun _ => rfl) p op' h
+  | chmod p m => exact single_from_realPath D P hP (.chmod · m) (fun _ => rfl) p op' h
+  | chown p u g => exact single_from_realPath D P hP (.chown · u g) (fun _ => rfl) p op' h
+  | chtimes p t => exact single_from_realPath D P hP (.chtimes · t) (fun _ => rfl) p op' h
   | rename a b =>
     simp only [bpMapOp] at h
     split at h
@@ -194,11 +200,44 @@ theorem bp_every_name_confined (D : Str) (hD : isRooted D = true) (op op' : Op) 
       intro p hp
       simp only [opNames, List.mem_cons, List.mem_nil_iff, or_false] at hp
       rcases hp with rfl | rfl
-      · exact realPath_confined D a _ hD ha
-      · exact realPath_confined D b _ hD hb
+      · exact hP a _ ha
+      · exact hP b _ hb
     · cases h
   | hRead _ _ | hReadAt _ _ _ | hWrite _ _ | hWriteAt _ _ _ | hTrunc _ _ | hSeek _ _ _ | hClose _ | hName _
   | hStat _ | hSync _ | hReaddir _ _ | hReaddirnames _ _ => exact absurd rfl hn
+
+/-- **C08, every Fs method.** Whatever call is made on a base-path filesystem rooted at an absolute
+    `D` — Create, Mkdir, MkdirAll, Open, OpenFile, Remove, RemoveAll, Stat, Chmod, Chown, Chtimes,
+    both arguments of Rename — every name that is handed to the underlying filesystem is a cleaned
+    absolute path whose segments extend the root's (`Confined`); and if any argument would leave
+    the root the underlying filesystem is not called at all, the answer is not-exist and nothing
+    changes (`bp_escape_inert`). -/
+theorem bp_every_name_confined (D : Str) (hD : isRooted D = true) (op op' : Op) (h : bpMapOp D op = some op')
+    (hn : opNames op ≠ []) : ∀ p ∈ opNames op', Confined D p :=
+  bp_names_from_realPath D (Confined D) (fun n q hr => realPath_confined D n q hD hr) op op' h hn
+
+/-! ### every root, relative ones included -/
+
+/-- **C08, RealPath, all roots D** ("", ".", "rel", "./rel/", "..", "../..", "../up", "/", "/base/", …):
+    a path that `RealPath` accepts is rooted iff the root is, and its cleaned segments are the root's
+    cleaned segments followed by normal segments only — no `..` after the root's own (possibly leading
+    `..`) elements: it denotes the root or something below it, never a sibling, an ancestor, or — for a
+    root like ".." — something further up. (As repaired: the unchanged code accepted `../y` below the
+    root "..", see known-findings.json.) -/
+theorem realPath_confined_every_root (base name p : Str) (h : realPath base name = some p) :
+    isRooted p = isRooted base ∧ ∃ rest, segsR p = segsR base ++ rest ∧ ∀ x ∈ rest, Normal x :=
+  realPath_confined_all base name p h
+
+def ConfinedR (D p : Str) : Prop :=
+  isRooted p = isRooted D ∧ ∃ rest, segsR p = segsR D ++ rest ∧ ∀ x ∈ rest, Normal x
+
+/-- **C08, every Fs method, all roots.** -/
+theorem bp_every_name_confined_every_root (D : Str) (op op' : Op) (h : bpMapOp D op = some op')
+    (hn : opNames op ≠ []) : ∀ p ∈ opNames op', ConfinedR D p :=
+  bp_names_from_realPath D (ConfinedR D) (fun n q hr => realPath_confined_all D n q hr) op op' h hn
+
+example : realPath (s "..") (s "../b") = none ∧ realPath (s ".") (s "a/../b") = some (s "b") ∧
+    realPath (s "../up") (s "../../y") = none ∧ realPath (s "rel") (s "../rel/x") = some (s "rel/x") := by decide
 
 theorem bp_escape_inert (src : StepFn) (D : Str) (m : MemFs) (op : Op) (h : bpMapOp D op = none) (hh : ∀ i, op ≠ .hName i) :
     bpStep src D m op = (m, .err .notexist) := by
